@@ -185,6 +185,12 @@ pub fn gen_c14(rng: &mut Rng, thorough: bool) -> History {
                 }
             }
         }
+        if rng.chance(1, 12) {
+            // the equalities do not depend on the transform: clear() ignores it on either route,
+            // and under a non-identity transform fill_rect takes the general route anyway
+            em.push(0, Op::SetTransform(gen_transform(rng, w, h, true)));
+            continue;
+        }
         if rng.chance(1, 10) {
             let p = valid_pixel(rng);
             let (a, r, g, b) = ((p >> 24) as u8, (p >> 16) as u8, (p >> 8) as u8, p as u8);
